@@ -1097,3 +1097,27 @@ def flag_test(body, sb):
         if fl is not None and all(isinstance(v, bool) for v, _b in fl) and tt is not None and ft is not None:
             return {"flow": fl, "edge_values": {tt: {True}, ft: {False}}}
     return None
+
+
+def self_path(body, op_or_place, depth=8):
+    """field path below `self` (argument 1) of the place an operand reads / a place names, following copies and
+    references - also through the receiver of a spliced method (`&mut self.nesting` handed on, then `.0`): a tuple of
+    ".field" projections, or None when the value does not live in self"""
+    pl = op_place(op_or_place) if isinstance(op_or_place, dict) else op_or_place
+    if pl is None:
+        return None
+    proj = tuple(str(p_) for p_ in pl[1] if str(p_).startswith("."))
+    base = pl[0]
+    for _ in range(depth):
+        if base == 1:
+            return proj
+        d = body.single_def(base)
+        if d is None or d[1] == TERM:
+            return None
+        rv = d[2]
+        src = P(rv["place"]) if rv.get("k") == "ref" else (op_place(rv.get("op")) if rv.get("k") in ("use", "cast") else None)
+        if src is None:
+            return None
+        proj = tuple(str(p_) for p_ in src[1] if str(p_).startswith(".")) + proj
+        base = src[0]
+    return None
